@@ -2,6 +2,7 @@ import QipVerif.Lemmas.RenderLinks
 /-! C20: `links_reach` — the glyphs of the link column in the pieces of control bridges, SWAPs
 and measurements. -/
 namespace QipVerif.Render
+variable {v : Variant}
 
 theorem mid3 (h : Nat) (a b : Char) (l : Str) : (rep h a ++ b :: l)[h]? = some b := by
   rw [List.getElem?_append_right (by simp)]; simp
@@ -22,8 +23,9 @@ theorem pyRange_getLast? {a b : Nat} (h : a < b) : (pyRange a b).getLast? = some
 /-! ### control bridges -/
 
 /-- the piece `_update_qbridge` appends to a non-target wire of its range -/
-theorem updQbridge_mem {ts cs wl : List Nat} {width : Nat} {isTop : Bool} {w : Nat} (hw : w ∈ wl) (hnt : w ∉ ts) :
-    ∃ g, (w, g) ∈ updQbridge ts cs wl width isTop ∧
+theorem updQbridge_mem {ts cs wl : List Nat} {width : Nat} {isTop : Bool} {w : Nat} (hw : w ∈ wl)
+    (hnt : ¬ inBox v ts w = true) :
+    ∃ g, (w, g) ∈ updQbridge v ts cs wl width isTop ∧
       g.mid[width / 2]? = some (if w ∈ cs then '█' else '│') ∧
       (¬ (w ∈ cs ∧ (some w = wl.head? ∨ some w = wl.getLast?) ∧ isTop = true) → g.top[width / 2]? = some '│') ∧
       (¬ (w ∈ cs ∧ (some w = wl.head? ∨ some w = wl.getLast?) ∧ isTop = false) → g.bot[width / 2]? = some '│') := by
@@ -49,10 +51,13 @@ theorem updQbridge_mem {ts cs wl : List Nat} {width : Nat} {isTop : Bool} {w : N
     · intro _; exact mid3 ..
 
 /-- the marks `┴` / `┬` on the frame of a box with controls, at the link column -/
-theorem drawMultiq_marks (p : Nat) (text : Str) (ts : List Nat) (cs : Option (List Nat)) (htr : truthy cs = true) :
-    (lmax (ctrlList cs) > lmin ts → (drawMultiq p text ts cs).top[(drawMultiq p text ts cs).top.length / 2]? = some '┴') ∧
-    (lmin (ctrlList cs) < lmax ts → (drawMultiq p text ts cs).bot[(drawMultiq p text ts cs).top.length / 2]? = some '┬') := by
-  have hb := drawMultiq_w p text ts cs
+theorem drawMultiq_marks (v : Variant) (p : Nat) (text : Str) (ts : List Nat) (cs : Option (List Nat))
+    (htr : truthy cs = true) :
+    (isTop v (ctrlList cs) ts = true →
+      (drawMultiq v p text ts cs).top[(drawMultiq v p text ts cs).top.length / 2]? = some '┴') ∧
+    (isBot v (ctrlList cs) ts = true →
+      (drawMultiq v p text ts cs).bot[(drawMultiq v p text ts cs).top.length / 2]? = some '┬') := by
+  have hb := drawMultiq_w v p text ts cs
   rw [hb.top]
   have e : ∀ (a b : Char) , ((' ' : Char) :: a :: (rep (p * 2 + text.length) '─' ++ [b, ' '])).length
       = p * 2 + text.length + 4 := by intro a b; simp
@@ -74,9 +79,9 @@ theorem drawMultiq_marks (p : Nat) (text : Str) (ts : List Nat) (cs : Option (Li
 
 /-- the pieces of the target pass on the highest and on the lowest target wire carry the box's
 top / bottom frame -/
-theorem updTargetMultiq_ends (ts : List Nat) (b : Box) (hne : ts ≠ []) (hshape : ts.length = 1 ∨ lmin ts < lmax ts) :
-    (∃ g, (lmax ts, g) ∈ updTargetMultiq ts (pyRange (lmin ts) (lmax ts + 1)) b ∧ g.top = b.top) ∧
-    (∃ g, (lmin ts, g) ∈ updTargetMultiq ts (pyRange (lmin ts) (lmax ts + 1)) b ∧ g.bot = b.bot) := by
+theorem updTargetMultiq_ends (ts cs : List Nat) (b : Box) (hne : ts ≠ []) (hshape : ts.length = 1 ∨ lmin ts < lmax ts) :
+    (∃ g, (lmax ts, g) ∈ updTargetMultiq v ts cs (pyRange (lmin ts) (lmax ts + 1)) b ∧ g.top = b.top) ∧
+    (∃ g, (lmin ts, g) ∈ updTargetMultiq v ts cs (pyRange (lmin ts) (lmax ts + 1)) b ∧ g.bot = b.bot) := by
   have hmm : lmin ts ≤ lmax ts := lmin_le (lmax_mem hne)
   have hlen : (pyRange (lmin ts) (lmax ts + 1)).length = lmax ts + 1 - lmin ts := by simp [pyRange]
   unfold updTargetMultiq
@@ -84,24 +89,45 @@ theorem updTargetMultiq_ends (ts : List Nat) (b : Box) (hne : ts ≠ []) (hshape
   unfold pyRange
   rw [zip_range_range', List.map_map]
   constructor
-  · by_cases hone : ts.length = 1
-    · refine ⟨{ top := b.top, mid := b.midLabel, bot := b.bot },
-        List.mem_map.mpr ⟨lmax ts - lmin ts, List.mem_range.mpr (by omega), ?_⟩, rfl⟩
-      simp only [Function.comp, if_pos hone]
-      congr 1; omega
-    · have hlt : lmin ts < lmax ts := by rcases hshape with h | h; exact absurd h hone; exact h
-      refine ⟨{ top := b.top, mid := b.midConnect, bot := b.midFrame },
-        List.mem_map.mpr ⟨lmax ts - lmin ts, List.mem_range.mpr (by omega), ?_⟩, rfl⟩
-      have hq : lmin ts + (lmax ts - lmin ts) = lmax ts := by omega
-      simp only [Function.comp, if_neg hone, hq]
-      rw [if_neg (by omega), if_pos ⟨by omega, lmax_mem hne⟩]
-  · by_cases hone : ts.length = 1
-    · refine ⟨{ top := b.top, mid := b.midLabel, bot := b.bot },
-        List.mem_map.mpr ⟨0, List.mem_range.mpr (by omega), ?_⟩, rfl⟩
-      simp only [Function.comp, if_pos hone, Nat.add_zero]
-    · refine ⟨{ top := b.midFrame, mid := b.midLabel, bot := b.bot },
-        List.mem_map.mpr ⟨0, List.mem_range.mpr (by omega), ?_⟩, rfl⟩
-      simp [Function.comp, hone, lmin_mem hne]
+  · have hq : lmin ts + (lmax ts - lmin ts) = lmax ts := by omega
+    refine ⟨targetSeg v ts cs (lmax ts + 1 - lmin ts) b (lmax ts - lmin ts) (lmax ts),
+      List.mem_map.mpr ⟨lmax ts - lmin ts, List.mem_range.mpr (by omega), ?_⟩, ?_⟩
+    · simp only [Function.comp, hq]
+    · unfold targetSeg
+      by_cases hone : ts.length = 1
+      · rw [if_pos hone]
+      · have hlt : lmin ts < lmax ts := by rcases hshape with h | h; exact absurd h hone; exact h
+        rw [if_neg hone, if_neg (by omega), if_pos ⟨by omega, lmax_mem hne⟩]
+  · refine ⟨targetSeg v ts cs (lmax ts + 1 - lmin ts) b 0 (lmin ts),
+      List.mem_map.mpr ⟨0, List.mem_range.mpr (by omega), ?_⟩, ?_⟩
+    · simp only [Function.comp, Nat.add_zero]
+    · unfold targetSeg
+      by_cases hone : ts.length = 1
+      · rw [if_pos hone]
+      · rw [if_neg hone, if_pos ⟨rfl, lmin_mem hne⟩]
+
+/-- the piece of the target pass on a control strictly between the targets carries the node `█`
+at the link column, inside the box (repaired tree, `insideNode`) -/
+theorem updTargetMultiq_inside (hv : v.insideNode = true) (ts cs : List Nat) (b : Box) {n : Nat} (hb : BoxW n b)
+    {w : Nat} (h1 : lmin ts < w) (h2 : w < lmax ts) (hnt : w ∉ ts) (hc : w ∈ cs) :
+    ∃ g, (w, g) ∈ updTargetMultiq v ts cs (pyRange (lmin ts) (lmax ts + 1)) b ∧
+      g.mid = setChar b.midFrame (n / 2) '█' ∧ g.top = b.midFrame ∧ g.bot = b.midFrame := by
+  have hlen : (pyRange (lmin ts) (lmax ts + 1)).length = lmax ts + 1 - lmin ts := by simp [pyRange]
+  unfold updTargetMultiq
+  rw [hlen]
+  unfold pyRange
+  rw [zip_range_range', List.map_map]
+  have hq : lmin ts + (w - lmin ts) = w := by omega
+  refine ⟨targetSeg v ts cs (lmax ts + 1 - lmin ts) b (w - lmin ts) w,
+    List.mem_map.mpr ⟨w - lmin ts, List.mem_range.mpr (by omega), ?_⟩, ?_⟩
+  · simp only [Function.comp, hq]
+  · have hone : ¬ ts.length = 1 := by
+      intro h
+      match ts, h with
+      | [t], _ => simp only [lmin, lmax, List.foldl_nil] at h1 h2; omega
+    unfold targetSeg
+    rw [if_neg hone, if_neg (fun h => hnt h.2), if_neg (fun h => hnt h.2)]
+    simp only [hv, hc, and_self, if_true, hb.midFrame]
 
 /-! ### SWAP -/
 
